@@ -34,6 +34,7 @@ static Fields gen(Tape &t) {
   if (lm.on()) f.seti("long", 1);
   f.set("text", g_norm_uri(t));
   f.seti("mm", t.below(2));
+  f.seti("locale", t.chance(15, 16) ? 0 : 1);  // one case in 16 runs under C.UTF-8 (case mapping must not follow the locale)
   return f;
 }
 
@@ -236,6 +237,7 @@ static Verdict check(const Fields &f) {
   }
   std::string text = f.get("text");
   if (!uriref_matcher().matches(text)) return Verdict::discard();
+  LocaleArm loc(f.geti("locale") != 0);
   MUri in = m_split(text);
   int ch = 0; bool dots = false;
   bool useMm = f.geti("mm") != 0;
